@@ -38,7 +38,7 @@ class CasGen:
     """opts: xmi_safe (avoid what XMI cannot express: null FSArray elements, empty inline string lists, …),
     json (non-text sofas), max_views"""
 
-    def __init__(self, rng, n_types=4, n_fs=8, xmi_safe=True, max_views=3, lenient=False, foreign=False):
+    def __init__(self, rng, n_types=4, n_fs=8, xmi_safe=True, max_views=3, lenient=False, foreign=False, flat=False):
         self.rng = rng
         self.sb = SB()
         self.xmi_safe = xmi_safe
@@ -50,6 +50,7 @@ class CasGen:
         self.view_text = {}
         self.n_types, self.n_fs, self.max_views = n_types, n_fs, max_views
         self.lenient = lenient
+        self.flat = flat     # only primitive and plain reference features (the fragment of the round-trip theorems)
 
     # ---------- type system ----------
     def is_annotation(self, t):
@@ -73,6 +74,8 @@ class CasGen:
         if all(n == "x.Str" for n in names):
             names.append("x.A")
         for n in names:
+            if n == "x.Str" and self.flat:
+                continue
             if n == "x.Str":
                 sup = "uima.cas.String"
             else:
@@ -119,12 +122,15 @@ class CasGen:
         rng = self.rng
         kind = rng.choice(["prim", "prim", "ref", "ref", "fsarray", "primarray", "fslist", "primlist"])
         base = rng.choice(["f", "g", "value", "head2", "self", "type", "begin", "end", "items", "label", "k1", "k2", "k3"])
+        if self.flat:
+            kind = rng.choice(["prim", "prim", "ref"])
+            base = rng.choice(["f", "g", "value", "head2", "begin", "end", "items", "label", "k1", "k2", "k3"])
         multi = rng.choice([None, None, True, False])
         if kind == "prim":
             r = rng.choice(PRIMS + (["x.Str"] if "x.Str" in self.types else []))
             return {"name": base, "kind": "prim", "range": r}
         if kind == "ref":
-            if rng.random() < 0.15:
+            if rng.random() < 0.15 and not self.flat:
                 return {"name": base, "kind": "ref", "range": rng.choice(["uima.cas.NonEmptyFSList", "uima.cas.ListBase", "uima.cas.ArrayBase", "uima.cas.EmptyFSList"]),
                         "node": True}
             return {"name": base, "kind": "ref", "range": rng.choice(struct + ["uima.tcas.Annotation", "uima.cas.TOP"])}
